@@ -12,6 +12,10 @@ package main
 //   pk_noise              pk0 + pk1·s = e with 0 < ‖e‖∞ ≤ B_e, over Q and over P
 //   decrypt_reused_receiver  Decrypt into a caller-provided, re-used plaintext of any other level: level =
 //                         min(ct.Level(), pt.Level()), value = m + e within the bound, metadata copied
+//   component_noise_present  per component: c0 − u·pk0 − m and c1 − u·pk1 (times p0, up to the centred residue,
+//                         when P is present) EQUAL the sampled e0, e1 of the twin replay, are non-zero and differ;
+//                         for sk: c0 + c1·s − m = e ≠ 0
+//   keygen_reused_receiver  (c03_keygen.go) keys generated into used receivers = keys generated into fresh ones
 //   shallowcopy_keeps_prng  a ShallowCopy of a WithPRNG encryptor still produces compressed (degree-0)
 //                         ciphertexts that the seed holder can expand and decrypt
 //
@@ -23,6 +27,7 @@ import (
 	"fmt"
 	"math"
 	"math/big"
+	"reflect"
 
 	"github.com/tuneinsight/lattigo/v6/core/rlwe"
 	"github.com/tuneinsight/lattigo/v6/ring"
@@ -153,7 +158,7 @@ func c03Path(s *c03Set, key string) string {
 
 // c03ProbeEncryption evaluates the predicates on one successful encryption.
 func c03ProbeEncryption(c *Ctx, s *c03Set, v *c03Variant, api string, deg, level int, junk bool,
-	ct *rlwe.Ciphertext, ptIn *rlwe.Plaintext, tA, tE0 ring.Poly) {
+	ct *rlwe.Ciphertext, ptIn *rlwe.Plaintext, tA, tE0, tU, tE1 ring.Poly) {
 	params := s.params
 	rg := params.RingQ().AtLevel(level)
 	qs := params.Q()[:level+1]
@@ -232,6 +237,9 @@ func c03ProbeEncryption(c *Ctx, s *c03Set, v *c03Variant, api string, deg, level
 		}
 		a.add(noise)
 	}
+
+	// every component carries its own error
+	c03ProbeComponents(c, s, v, args, level, ct, ctDec, want, got, tE0, tU, tE1)
 
 	// wrong key
 	{
@@ -550,5 +558,136 @@ func c03DecryptReusedReceiver(c *Ctx, s *c03Set) {
 				}
 			}
 		}
+	}
+}
+
+// c03ProbeComponents: each ciphertext component must carry the error the encryptor sampled for it.
+// Everything is compared as denoted polynomials (coefficient domain, Montgomery factor removed per flag).
+func c03ProbeComponents(c *Ctx, s *c03Set, v *c03Variant, args string, level int, ct, ctDec *rlwe.Ciphertext,
+	want, got [][]uint64, tE0, tU, tE1 ring.Poly) {
+	params := s.params
+	rg := params.RingQ().AtLevel(level)
+	qs := params.Q()[:level+1]
+	N := s.N
+	e0 := Canon(rg, tE0, false, false)
+	mulmod := func(a, b, q uint64) uint64 {
+		return new(big.Int).Mod(new(big.Int).Mul(new(big.Int).SetUint64(a), new(big.Int).SetUint64(b)), new(big.Int).SetUint64(q)).Uint64()
+	}
+	isZero := func(rows [][]uint64) bool {
+		for _, r := range rows {
+			for _, x := range r {
+				if x != 0 {
+					return false
+				}
+			}
+		}
+		return true
+	}
+	eq := func(a, b [][]uint64) bool { return reflect.DeepEqual(a, b) }
+	fail := func(detail string) {
+		c.Probe("component_noise_present", args, "C03-component-noise-missing", detail)
+	}
+	lower := c03DegeneracyNegligible(s, "sk") // zero / repeated draws of Xe itself negligible at this N ?
+
+	if v.key == "sk" {
+		// phase − m must be exactly the sampled e (and not 0)
+		res := c03SubRows(qs, got, want)
+		switch {
+		case !eq(res, e0):
+			fail("c0 + c1*s - m differs from the error the encryptor sampled")
+		case lower && isZero(res):
+			fail("c0 + c1*s - m = 0: no error in the ciphertext")
+		default:
+			fail("")
+		}
+		return
+	}
+	if len(ct.Value) < 2 {
+		return
+	}
+	e1 := Canon(rg, tE1, false, false)
+	// u·pk_i over Q (pk is stored in NTT + Montgomery form: MulCoeffsMontgomery yields the plain product)
+	u := rg.NewPoly()
+	for i := 0; i <= level; i++ {
+		copy(u.Coeffs[i], tU.Coeffs[i])
+	}
+	rg.NTT(u, u)
+	upk := make([][][]uint64, 2)
+	for i := 0; i < 2; i++ {
+		t := rg.NewPoly()
+		rg.MulCoeffsMontgomery(u, s.pk.Value[i].Q, t)
+		upk[i] = Canon(rg, t, true, false)
+	}
+	comp := make([][][]uint64, 2)
+	for i := 0; i < 2; i++ {
+		comp[i] = Canon(rg, ct.Value[i], ct.IsNTT, ct.IsMontgomery)
+	}
+	comp[0] = c03SubRows(qs, comp[0], want) // remove the plaintext
+	es := [][][]uint64{e0, e1}
+	if s.nP == 0 {
+		bad := ""
+		for i := 0; i < 2; i++ {
+			res := c03SubRows(qs, comp[i], upk[i])
+			if !eq(res, es[i]) {
+				bad += fmt.Sprintf("c%d - u*pk%d%s differs from the sampled error e%d (residual identically zero: %v); ", i, i,
+					map[int]string{0: " - m", 1: ""}[i], i, isZero(res))
+			}
+		}
+		if bad != "" {
+			fail(bad)
+			return
+		}
+	} else {
+		// p0·c_i − u·pk_i ≡ e_i − δ_i (mod q_j), δ_i the centred residue of u·pk_i + e_i modulo p0
+		p0 := params.P()[0]
+		rp := params.RingP().AtLevel(0)
+		q0 := qs[0]
+		cent := func(x, q uint64) int64 { // centred representative (small values)
+			if x > q/2 {
+				return -int64(q - x)
+			}
+			return int64(x)
+		}
+		uP := rp.NewPoly()
+		for j := 0; j < N; j++ {
+			cv := cent(tU.Coeffs[0][j], q0)
+			if cv < 0 {
+				uP.Coeffs[0][j] = p0 - uint64(-cv)%p0
+			} else {
+				uP.Coeffs[0][j] = uint64(cv) % p0
+			}
+		}
+		rp.NTT(uP, uP)
+		for i := 0; i < 2; i++ {
+			t := rp.NewPoly()
+			rp.MulCoeffsMontgomery(uP, s.pk.Value[i].P, t)
+			upkP := Canon(rp, t, true, false)[0]
+			for j := 0; j < N; j++ {
+				ev := cent(es[i][0][j], q0)
+				x := new(big.Int).Add(new(big.Int).SetUint64(upkP[j]), big.NewInt(ev))
+				x.Mod(x, new(big.Int).SetUint64(p0))
+				d := new(big.Int).Set(x)
+				if x.Cmp(new(big.Int).SetUint64(p0/2)) > 0 {
+					d.Sub(d, new(big.Int).SetUint64(p0))
+				}
+				rhs := new(big.Int).Sub(big.NewInt(ev), d) // e − δ
+				for k, q := range qs {
+					lhs := (mulmod(p0%q, comp[i][k][j], q) + q - upk[i][k][j]) % q
+					r := new(big.Int).Mod(rhs, new(big.Int).SetUint64(q)).Uint64()
+					if lhs != r {
+						fail(fmt.Sprintf("p0*c%d - u*pk%d (minus p0*m) is not e%d minus the centred residue mod p0 (coefficient %d, modulus %d)", i, i, i, j, k))
+						return
+					}
+				}
+			}
+		}
+	}
+	switch {
+	case lower && (isZero(e0) || isZero(e1)):
+		fail("a component's error is identically zero")
+	case lower && eq(e0, e1):
+		fail("both components carry the same error")
+	default:
+		fail("")
 	}
 }
